@@ -1,34 +1,58 @@
-#!/bin/sh
-# usage: selftest.sh <Cxx>|all  — applies every mutations/<Cxx>/*.diff to a scratch copy of /repo and expects the check to fire.
+#!/bin/bash
+# usage: selftest.sh <Cxx>|all [jobs]
+# Applies every mutations/<Cxx>/*.diff (and seeded/<id>/patch.diff that names <Cxx>) to a scratch copy of /repo made outside /repo and
+# /verif, requires the mutant to build, runs the property's check on the copy (static analysis of the copy, nothing is executed from it)
+# and requires the expected obligation to be reported. A mutant that no longer applies to the current tree is reported STALE and skipped.
 set -u
 cd "$(dirname "$0")/.." || exit 2
 export GOFLAGS=-mod=mod GOPROXY=off GOSUMDB=off GOTOOLCHAIN=local
 REPO="${VERIF_REPO:-/repo}"
+JOBS="${2:-4}"
 props="$1"
 [ "$props" = all ] && props=$(ls mutations 2>/dev/null)
-fail=0; n=0
+V="$(pwd)"
+
+one() {
+  P="$1"; m="$2"
+  D=$(mktemp -d /tmp/lemomut.XXXXXX)
+  rsync -a --exclude .git "$REPO"/ "$D"/
+  if ! (cd "$D" && patch -p1 -s < "$V/$m") >/dev/null 2>&1; then
+    echo "MUTANT-STALE $m (does not apply to the current tree)"; rm -rf "$D"; return 0
+  fi
+  if ! (cd "$D" && go build ./... ) >/dev/null 2>&1; then
+    echo "MUTANT-NOBUILD $m"; rm -rf "$D"; return 1
+  fi
+  out=$("$V/bin/lemolint" check "$P" --repo "$D" --verif "$V" --no-evidence 2>&1)
+  rc=$?
+  want=$(sed -n 's/^# expect: *//p' "$V/$m" | head -1)
+  rm -rf "$D"
+  if [ $rc -eq 1 ] && echo "$out" | grep -q "^VIOLATION property=$P" && { [ -z "$want" ] || echo "$out" | grep -qF -- "$want"; }; then
+    echo "MUTANT-CAUGHT $m"; return 0
+  fi
+  echo "MUTANT-MISSED $m (rc=$rc, expected obligation: ${want:-any})"; return 1
+}
+
+fail=0; n=0; pids=()
 for P in $props; do
-  for m in mutations/$P/*.diff; do
+  list=$(ls mutations/$P/*.diff 2>/dev/null)
+  # seeded changes from independent agents that break this property
+  for meta in seeded/*/meta.json; do
+    [ -f "$meta" ] || continue
+    if grep -q "\"property\": *\"$P\"" "$meta" && grep -q '"caught": *true' "$meta"; then
+      list="$list $(dirname "$meta")/patch.diff"
+    fi
+  done
+  for m in $list; do
     [ -f "$m" ] || continue
     n=$((n+1))
-    D=$(mktemp -d /tmp/lemomut.XXXXXX)
-    rsync -a --exclude .git "$REPO"/ "$D"/
-    if ! (cd "$D" && patch -p1 -s < "$OLDPWD/$m") >/dev/null 2>&1; then
-      echo "MUTANT-STALE $m (does not apply to the current tree)"; rm -rf "$D"; continue
+    one "$P" "$m" &
+    pids+=($!)
+    if [ ${#pids[@]} -ge "$JOBS" ]; then
+      wait "${pids[0]}" || fail=1
+      pids=("${pids[@]:1}")
     fi
-    if ! (cd "$D" && go build ./... ) >/dev/null 2>&1; then
-      echo "MUTANT-NOBUILD $m"; rm -rf "$D"; fail=1; continue
-    fi
-    out=$(./bin/lemolint check "$P" --repo "$D" --verif "$(pwd)" --no-evidence 2>&1)
-    rc=$?
-    want=$(sed -n 's/^# expect: *//p' "$m" | head -1)
-    if [ $rc -eq 1 ] && echo "$out" | grep -q "^VIOLATION property=$P" && { [ -z "$want" ] || echo "$out" | grep -qF "$want"; }; then
-      echo "MUTANT-CAUGHT $m"
-    else
-      echo "MUTANT-MISSED $m (rc=$rc, expected obligation: ${want:-any})"; fail=1
-    fi
-    rm -rf "$D"
   done
 done
+for p in "${pids[@]:-}"; do [ -n "$p" ] && { wait "$p" || fail=1; }; done
 echo "selftest: $n mutants, fail=$fail"
 exit $fail
